@@ -540,6 +540,21 @@ def _mechanism(sim, culprit, ops):
                         return "unlinked-while-packer-holds-packed-refs-lock"
                     lock_at = None
         return None
+    if name == H and k in ("get", "has"):
+        # a read through HEAD: HEAD followed, re-pointed by someone else, and
+        # only then the (old) target read
+        opens = [i for i, e in enumerate(ev)
+                 if e[1] == me and e[2] == "open_r" and
+                 e[3] == "repo/.git/HEAD"]
+        for i, e in enumerate(ev):
+            if e[1] != me and e[2] == "replace" and \
+                    e[3] == "repo/.git/HEAD.lock":
+                later = [j for j, f in enumerate(ev)
+                         if f[1] == me and f[2] == "open_r" and j > i and
+                         f[3].startswith("repo/.git/refs/")]
+                if any(r < i for r in opens) and later:
+                    return "head-retargeted-between-follow-and-lock"
+        return None
     if name == H and k in ("cas", "add", "lcas"):
         # HEAD re-pointed between following it and locking the old target
         # the content a reader sees is bound when it opens the file
